@@ -22,10 +22,12 @@ Cfg(s1, s2) == << [win |-> <<NA, 20>>, entries |-> <<G(s1), S(s1)>>], [win |-> <
 
 Items(s1, s2) == { <<>>, << [kind |-> "stream", v |-> s1] >>, << [kind |-> "test", v |-> "spike"] >>,
                    << [kind |-> "func", v |-> "gross"], [kind |-> "stream", v |-> s2] >> }
+DefaultAxes == [t |-> <<"t","i","m","e">>, z |-> <<"z">>, y |-> <<"l","a","t">>, x |-> <<"l","o","n">>]
+CustomAxes  == [t |-> <<"t","t">>, z |-> <<"d","e","p","t","h">>, y |-> <<"y">>, x |-> <<"x">>]
 Opts(s1, s2) == { [write_data |-> wd, write_axes |-> wa, include |-> [given |-> ig, items |-> ii],
-                   exclude |-> [given |-> eg, items |-> ei]] :
+                   exclude |-> [given |-> eg, items |-> ei], axes |-> ax] :
                       wd \in BOOLEAN, wa \in BOOLEAN, ig \in BOOLEAN, eg \in BOOLEAN,
-                      ii \in Items(s1, s2), ei \in Items(s1, s2) }
+                      ii \in Items(s1, s2), ei \in Items(s1, s2), ax \in {DefaultAxes, CustomAxes} }
 
 VARIABLES s1v, s2v, optv, framev
 msvars == <<s1v, s2v, optv, framev>>
@@ -44,7 +46,7 @@ InvStoreSat ==
     /\ ~Collide(s1v, s2v) => ok.distinct /\ ok.count /\ ok.results
 InvNames ==
     \A j \in 1..Len(framev) :
-        framev[j].name \notin ({CharsOf[s1v], CharsOf[s2v]} \cup AxisNames) => IsSafe(framev[j].name)
+        framev[j].name \notin ({CharsOf[s1v], CharsOf[s2v]} \cup AxisNamesOf(optv)) => IsSafe(framev[j].name)
 InvCollision ==
     LET R == ResultsOf(Tb(s1v, s2v), Cfg(s1v, s2v), CharsOf) IN
     NoCollision(R) <=> ~Collide(s1v, s2v)
